@@ -265,7 +265,7 @@ func c18Explore(shard, nshards int, tier string) c18Result {
 			reported := false
 			gcWas := debug.SetGCPercent(-1)
 			prime()
-			st, capped := choose.Explore(bound, 1, func() bool { return time.Now().After(deadline) }, func(c *choose.Ctx) {
+			st, capped, diverged := choose.ExploreDiv(bound, 1, func() bool { return time.Now().After(deadline) }, func(c *choose.Ctx) {
 				s := runSchedule(c, sel, limits)
 				res.States += s.points
 				if reported {
@@ -291,6 +291,15 @@ func c18Explore(shard, nshards int, tier string) c18Result {
 				}
 			})
 			debug.SetGCPercent(gcWas)
+			if diverged != "" && !reported {
+				// the same schedule prefix did not lead to the same execution twice: the operations do something
+				// the scheduler does not control between yield points - in this library that can only be goroutines
+				// of their own (or a dependence on timing); their interleavings with the callers are not explored,
+				// and step 3 (race detector) is the judge of what they do to shared memory
+				res.Violations = append(res.Violations, core.Violation{Property: "C18", Identity: "C18|not-reproducible-under-a-fixed-schedule|" + scen,
+					Detail: fmt.Sprintf("value %s: replaying a recorded schedule prefix of %s led to a different execution (%s): an operation runs code concurrently with its caller or depends on timing", v.name, strings.Join(names, "+"), diverged),
+					Case:   core.Case{Kind: "schedule", Args: map[string]string{"value": v.name, "ops": strings.Join(names, "+"), "vector": "[]"}}})
+			}
 			res.Evaluations += st.Executions
 			res.Traces += st.Executions
 			res.Transitions += st.Transitions
